@@ -352,9 +352,17 @@ func (c *bctx) ufApply(t *Term) interface{} {
 		}
 	}
 	if t.sort == SStr {
-		app.res = c.freshVec(2*c.L, "uf")
+		capn := 2 * c.L
+		kl, fixed := knownLen(t)
+		if fixed {
+			capn = int(kl)
+		}
+		app.res = c.freshVec(capn, "uf")
 		v := app.res.(*bvec)
-		c.side = append(c.side, mkGe(v.n, mkInt(0)), mkLe(v.n, mkInt(int64(2*c.L))))
+		if fixed {
+			c.side = append(c.side, mkEq(v.n, mkInt(kl)))
+		}
+		c.side = append(c.side, mkGe(v.n, mkInt(0)), mkLe(v.n, mkInt(int64(capn))))
 		for _, ch := range v.ch {
 			c.side = append(c.side, mkGe(ch, mkInt(0)), mkLe(ch, mkInt(255)))
 		}
@@ -408,6 +416,10 @@ func (c *bctx) tr(t *Term) *Term {
 func (c *bctx) tr0(t *Term) *Term {
 	switch t.op {
 	case "str.len":
+		if n, ok := knownLen(t.args[0]); ok {
+			c.str(t.args[0]) // keep the defining side constraints
+			return mkInt(n)
+		}
 		return c.str(t.args[0]).n
 	case "str.prefixof":
 		return c.prefixOf(c.str(t.args[0]), c.str(t.args[1]))
